@@ -77,3 +77,42 @@ Proof.
           | destruct b as [|p]; try (exfalso; apply Hb; reflexivity);
             repeat (destruct p as [p|p|]; try (exfalso; apply Hb; reflexivity)); auto ].
 Qed.
+
+(* ---- the state invariants hold in every state a history WITH time-limited cycles reaches ---- *)
+From STH Require Import Scan Scan2 Scan3 Scan4 Statements2 Statements3.
+
+Lemma greachable_from_empty bits imx pmx imm U l :
+  bits < 32 -> 0 < imx -> 0 < pmx -> key_universe U -> gops_ok U (init bits imx pmx imm) l ->
+  let s := grun_state (init bits imx pmx imm) l in
+  R bits U s (gspec_state imm sempty l) /\ G s /\ IInv2 (sidx s).
+Proof.
+  intros Hb Hi Hp HUk Hok. assert (HU : unrelated bits U) by (apply key_universe_unrelated; auto).
+  destruct (store_refines_map_budgeted_gc bits imx pmx imm U l Hi Hp HU Hok) as (_ & A & B & C). auto.
+Qed.
+
+(* C02: a rescan of the log rebuilds exactly the live bucket table - also when a cycle was stopped midway (records merged in
+   place, nothing truncated) *)
+Theorem greachable_rescan_eq_table bits imx pmx imm U l :
+  bits < 32 -> 0 < imx -> 0 < pmx -> key_universe U -> gops_ok U (init bits imx pmx imm) l ->
+  let s := grun_state (init bits imx pmx imm) l in
+  forall b, aget b (rescan (sidx s)) = aget b (itable (sidx s)).
+Proof.
+  intros Hb Hi Hp HUk Hok. cbv zeta.
+  destruct (greachable_from_empty bits imx pmx imm U l Hb Hi Hp HUk Hok) as (_ & _ & I2).
+  apply rescan_eq_table. exact I2.
+Qed.
+
+(* C13: the freelist invariant *)
+Theorem greachable_freelist_invariant bits imx pmx imm U l :
+  bits < 32 -> 0 < imx -> 0 < pmx -> key_universe U -> gops_ok U (init bits imx pmx imm) l ->
+  G (grun_state (init bits imx pmx imm) l).
+Proof. intros Hb Hi Hp HUk Hok. destruct (greachable_from_empty bits imx pmx imm U l Hb Hi Hp HUk Hok) as (_ & HG & _). exact HG. Qed.
+
+(* C07: the fsck clauses *)
+Theorem greachable_fsck bits imx pmx imm U l :
+  bits < 32 -> 0 < imx -> 0 < pmx -> key_universe U -> gops_ok U (init bits imx pmx imm) l ->
+  fsck_ok bits (grun_state (init bits imx pmx imm) l).
+Proof.
+  intros Hb Hi Hp HUk Hok. destruct (greachable_from_empty bits imx pmx imm U l Hb Hi Hp HUk Hok) as (HR & HG & I2).
+  eapply fsck_of_invariants; eauto.
+Qed.
